@@ -5,6 +5,8 @@ package props
 import (
 	"encoding/json"
 	"fmt"
+	"github.com/Trendyol/go-dcp/metadata"
+	"github.com/Trendyol/go-dcp/models"
 	"sync"
 	"testing"
 	"time"
@@ -20,6 +22,16 @@ func c04Weights() hWeights {
 func c04Run(sc *hScenario) (*hViolation, map[string]bool) {
 	s := newSession(sc, "C04")
 	s.cfg.Dcp.Group.Membership.RebalanceDelay = time.Millisecond
+	if sc.File {
+		// the file backend knows only the vBuckets it was last given: a member can hand vBuckets over, but a rebalance onto
+		// vBuckets missing from its file is refused at start-up (C15). Ranges therefore only shrink here.
+		s.onRebalance = func(op hOp) (int, int) {
+			cur := s.prevHi - s.prevLo + 1
+			size := 1 + ((op.Gap%cur)+cur)%cur
+			lo := s.prevLo + ((op.N%(cur-size+1))+(cur-size+1))%(cur-size+1)
+			return lo, lo + size - 1
+		}
+	}
 	s.open()
 	for i, op := range sc.Ops {
 		s.step = i + 1
@@ -58,7 +70,9 @@ func c04Run(sc *hScenario) (*hViolation, map[string]bool) {
 				}
 			}
 			offs.Range(func(vb uint16, _ *offT) bool {
-				if s.vbs[vb] == nil {
+				// (the file backend hands back every vBucket its file holds, also ones this member no longer owns: their
+				// stale entries are listed, and must merely never change - see TestC04_FileHistory)
+				if s.vbs[vb] == nil && s.metaI == nil {
 					s.fail("C04", "offsets API lists vb %d which is outside the assigned range %d-%d", vb, s.lo, s.hi)
 				}
 				return true
@@ -67,7 +81,30 @@ func c04Run(sc *hScenario) (*hViolation, map[string]bool) {
 	}
 	s.step = len(sc.Ops) + 1
 	// the next save writes exactly the tracked positions and nothing for foreign vBuckets (onDurableWrite checks ownership)
-	if s.viol == nil && s.inflight == nil {
+	if s.viol == nil && s.metaI != nil {
+		// file backend: the final save writes the tracked position of every owned vBucket; the entries of vBuckets the
+		// member no longer owns stay what they were when it last owned them
+		anyFlag := false
+		for _, m := range s.vbs {
+			anyFlag = anyFlag || m.dirtyGen != m.savedGen
+		}
+		s.save(hOp{Op: "save"})
+		if st, _, err := metadata.NewFSMetadata(s.cfg).Load(nil, ""); err == nil && st != nil && s.viol == nil {
+			st.Range(func(vb uint16, doc *models.CheckpointDocument) bool {
+				if doc == nil || doc.Checkpoint == nil {
+					return true
+				}
+				if m := s.vbs[vb]; m != nil {
+					if anyFlag && doc.Checkpoint.SeqNo != m.maxSettle {
+						s.fail("C04", "vb %d: the next save (file backend) wrote seq %d, tracked position is %d", vb, doc.Checkpoint.SeqNo, m.maxSettle)
+					}
+				} else if want, ok := s.saved[vb]; ok && doc.Checkpoint.SeqNo != want.Seq {
+					s.fail("C04", "vb %d is not owned by this member any more, yet its checkpoint in the file changed from seq %d to %d", vb, want.Seq, doc.Checkpoint.SeqNo)
+				}
+				return true
+			})
+		}
+	} else if s.viol == nil && s.inflight == nil {
 		flagged := map[uint16]bool{}
 		for vb, m := range s.vbs {
 			flagged[vb] = m.dirtyGen != m.savedGen
@@ -105,6 +142,24 @@ func TestC04_History(t *testing.T) {
 		}
 		nt := labels["ack_below_position"] && labels["ack_out_of_range"]
 		record("C04", sc, nt, append(labelList(labels), "histories")...)
+	})
+}
+
+// the same on the file (whole-state) backend: its Load returns every vBucket the file holds, so after a rebalance that
+// took vBuckets away the stream still knows positions of vBuckets it no longer owns - late acknowledgements for them
+// must not move them (no TrackOffset, no change of their entry in the file)
+func TestC04_FileHistory(t *testing.T) {
+	w := hWeights{deliver: 36, ack: 8, ackidx: 20, save: 12, rebalance: 8, ackold: 18, absorbed: 10, maxVb: scale(4, 8), minOps: 1, maxOps: scale(60, 200)}
+	rapid.Check(t, func(rt *rapid.T) {
+		sc := genHistory(rt, w)
+		sc.File = true
+		journal("C04", "c04filehist", sc)
+		v, labels := c04Run(&sc)
+		journalDone()
+		if v != nil {
+			violation(rt, v.Prop, "c04filehist", sc, "%s", v.Detail)
+		}
+		record("C04", sc, labels["ack_out_of_range"] && labels["file_save"], append(labelList(labels), "file_histories")...)
 	})
 }
 
@@ -190,6 +245,16 @@ func TestC04_Concurrent(t *testing.T) {
 }
 
 func init() {
+	registerReplay("c04filehist", func(raw json.RawMessage) string {
+		var sc hScenario
+		if err := json.Unmarshal(raw, &sc); err != nil {
+			return "bad scenario: " + err.Error()
+		}
+		if v, _ := c04Run(&sc); v != nil {
+			return v.Prop + ": " + v.Detail
+		}
+		return ""
+	})
 	registerReplay("c04hist", func(raw json.RawMessage) string {
 		var sc hScenario
 		if err := json.Unmarshal(raw, &sc); err != nil {
